@@ -40,6 +40,10 @@ _SC = {
     "pml-all": dict(shape=(4, 4, 4), bounds="pml", src=("dipole",), thickness=1),
     # a non-default grid centre: every object is pinned by absolute real coordinates, so the three descriptions must agree
     # on where the resolved edges lie, not only on the cell widths
+    # a spacing that is not a multiple of 1e-14 m (grids cache a rounded scalar spacing): every description must derive the
+    # same spacing and the same CFL time step from it (seeded change C38b)
+    "nonround-spacing": dict(shape=(4, 2, 4), bounds={"min_x": "pec", "max_x": "pec", "min_y": "pmc", "max_y": "pmc", "min_z": "periodic", "max_z": "periodic"},
+                             src=("dipole", "mdipole"), spacing=1.55e-6 / 36),
     "offcentre-realcoords": dict(shape=(4, 2, 4), bounds={"min_x": "pec", "max_x": "pec", "min_y": "pmc", "max_y": "pmc", "min_z": "periodic", "max_z": "periodic"},
                                  src=("dipole", "mdipole"), centre=(2.0, -3.0, 3.0)),
 }
@@ -47,34 +51,35 @@ _SC = {
 
 def cases(tier, seed):
     T = 3 if tier == "quick" else 5
-    names = ["pml-z", "pec-pmc-periodic", "offcentre-realcoords"] if tier == "quick" else list(_SC)
+    names = ["pml-z", "pec-pmc-periodic", "offcentre-realcoords", "nonround-spacing"] if tier == "quick" else list(_SC)
     return [dict(name=n, T=T) for n in names]
 
 
 def _place(spec, T, kind):
     shape = spec["shape"]
+    SP = spec.get("spacing", SPACING)
     centre = spec.get("centre")
     if centre is not None:
-        cen = tuple(float(v) * SPACING for v in centre)
-        lower = [cen[a] - shape[a] * SPACING / 2 for a in range(3)]   # where the resolved edges of a centred policy start
+        cen = tuple(float(v) * SP for v in centre)
+        lower = [cen[a] - shape[a] * SP / 2 for a in range(3)]   # where the resolved edges of a centred policy start
         if kind == "uniform":
-            grid = UniformGrid(spacing=SPACING, center=cen)
+            grid = UniformGrid(spacing=SP, center=cen)
         elif kind == "quasi":
-            grid = QuasiUniformGrid(dx=SPACING, dy=SPACING, dz=SPACING, center=cen)
+            grid = QuasiUniformGrid(dx=SP, dy=SP, dz=SP, center=cen)
         else:
-            ed = [jnp.asarray(lower[a] + np.arange(shape[a] + 1, dtype=np.float64) * SPACING) for a in range(3)]
+            ed = [jnp.asarray(lower[a] + np.arange(shape[a] + 1, dtype=np.float64) * SP) for a in range(3)]
             grid = RectilinearGrid(x_edges=ed[0], y_edges=ed[1], z_edges=ed[2])
     elif kind == "uniform":
-        grid = UniformGrid(spacing=SPACING)
+        grid = UniformGrid(spacing=SP)
     elif kind == "quasi":
-        grid = QuasiUniformGrid(dx=SPACING, dy=SPACING, dz=SPACING)
+        grid = QuasiUniformGrid(dx=SP, dy=SP, dz=SP)
     else:
-        ed = [jnp.asarray(np.arange(n + 1, dtype=np.float64) * SPACING) for n in shape]
+        ed = [jnp.asarray(np.arange(n + 1, dtype=np.float64) * SP) for n in shape]
         grid = RectilinearGrid(x_edges=ed[0], y_edges=ed[1], z_edges=ed[2])
     b = spec["bounds"]
     btypes = {f: b for f in FACES} if isinstance(b, str) else {f: b.get(f, "periodic") for f in FACES}
     volume = fdtdx.SimulationVolume(partial_grid_shape=tuple(shape))
-    dt = SimulationConfig(time=1e-15, grid=UniformGrid(spacing=SPACING), backend="cpu", dtype=jnp.float64).time_step_duration
+    dt = SimulationConfig(time=1e-15, grid=UniformGrid(spacing=SP), backend="cpu", dtype=jnp.float64).time_step_duration
     cfg = SimulationConfig(time=dt * (T + 0.01), grid=grid, backend="cpu", dtype=jnp.float64)
     bcfg = fdtdx.BoundaryConfig.from_uniform_bound(thickness=spec.get("thickness", 2), override_types=btypes, bloch_vector=spec.get("bloch", (0.0, 0.0, 0.0)))
     bdict, bcons = fdtdx.boundary_objects_from_config(bcfg, volume)
@@ -87,10 +92,10 @@ def _place(spec, T, kind):
             if centre is not None:
                 # absolute coordinates for all three descriptions (0.25 cell inside the target edge's snapping basin is not needed: exact edges)
                 from fdtdx.objects.object import RealCoordinateConstraint
-                cons.append(RealCoordinateConstraint(object=o.name, axes=cc.axes, sides=("-",) * len(cc.axes), coordinates=tuple(lower[a] + i * SPACING for a, i in zip(cc.axes, cc.idx))))
+                cons.append(RealCoordinateConstraint(object=o.name, axes=cc.axes, sides=("-",) * len(cc.axes), coordinates=tuple(lower[a] + i * SP for a, i in zip(cc.axes, cc.idx))))
             elif kind == "rect":
                 from fdtdx.objects.object import RealCoordinateConstraint
-                cons.append(RealCoordinateConstraint(object=o.name, axes=cc.axes, sides=("-",) * len(cc.axes), coordinates=tuple(i * SPACING for i in cc.idx)))
+                cons.append(RealCoordinateConstraint(object=o.name, axes=cc.axes, sides=("-",) * len(cc.axes), coordinates=tuple(i * SP for i in cc.idx)))
             else:
                 cons.append(cc.resolve(None))
     key = jax.random.PRNGKey(0)
@@ -120,6 +125,20 @@ def run_case(c, case):
     for k, S in scenes.items():
         if S["config"].time_steps_total != T:
             raise Inconclusive(f"{k}: {S['config'].time_steps_total} steps instead of {T}")
+    # derived scalars every description must agree on: the CFL time step and the (cached) uniform spacing of the resolved grid
+    ref = scenes["uniform"]["config"]
+    for k, S in scenes.items():
+        cf = S["config"]
+        rel_dt = abs(cf.time_step_duration - ref.time_step_duration) / ref.time_step_duration
+        sp_k, sp_r = getattr(cf.grid, "uniform_spacing", None), getattr(ref.grid, "uniform_spacing", None)
+        rel_sp = 0.0 if sp_k is None or sp_r is None else abs(float(sp_k) - float(sp_r)) / float(sp_r)
+        if rel_dt > 1e-12 or rel_sp > 1e-12:
+            c.fail_concrete(f"grid description '{k}' derives a different time step / uniform spacing than 'uniform' for the same cells",
+                            dict(scene=case["name"], description=k, time_step=cf.time_step_duration, time_step_uniform=ref.time_step_duration, rel_dt=rel_dt,
+                                 uniform_spacing=None if sp_k is None else float(sp_k), uniform_spacing_uniform=None if sp_r is None else float(sp_r)),
+                            key=f"grid-equivalence:time-step:{k}")
+        else:
+            c.prove(f"'{k}' derives the same time step and uniform spacing as 'uniform'", True)
     cplx = np.iscomplexobj(np.asarray(scenes["uniform"]["arrays"].fields.E))
     fsh = scenes["uniform"]["arrays"].fields.E.shape
     E, H = jx.symarr("E", fsh, cplx=cplx), jx.symarr("H", fsh, cplx=cplx)
